@@ -379,6 +379,7 @@ def find_line_shift(an: Analysis):
                 ok = False
                 break
             outs[k] = {lines[o]: after[o] for o in lines}
+            outs[("order", k)] = list(after) == list(lines)
         if ok:
             found = (m, outs)
     if found is None:
@@ -393,6 +394,12 @@ def r015_every_line(an: Analysis, rep):
     lm = an.prog.cls("code_data._line_mapping::LineMapping")
     shift, moved = find_line_shift(an)
     # folded on the witness mapping {5, None, 0, -3, 40}: every line that is not None moves by exactly the shift, None stays None
+    order_kept = all(v for k, v in moved.items() if isinstance(k, tuple))
+    moved = {k: v for k, v in moved.items() if not isinstance(k, tuple)}
+    rep.add("R01.5", f"{shift.qual}::the shift keeps the offsets in their order", order_kept, loc(shift.module, shift.node),
+            "the offsets of the witness mapping (one of them without a line) are in the same order after the shift" if order_kept else
+            "after the shift the offsets of the mapping are listed in another order (the one without a line moved): the table builder walks the mapping in the order it is listed, "
+            "so on 3.10 code with an instruction without a line in the middle is written with another table (or to_code() fails)")
     wrong = [f"shift {k:+d}: line {b!r} becomes {a!r}, expected {(b + k) if b is not None else None!r}" for k, mp in moved.items() for b, a in mp.items()
              if a != ((b + k) if b is not None else None)]
     rep.add("R01.5", f"{shift.qual}::the shift moves every line by exactly the given amount", not wrong, loc(shift.module, shift.node),
